@@ -39,10 +39,40 @@ type FullFeatures struct {
 	Off func(tag string) bool // construct switched off (known finding / undocumented feature)
 }
 
-// FullEntry names one entry point.
+// FullEntry describes one entry point (the generator's own knowledge of the
+// interface it wrote; used as the expectation of C17).
 type FullEntry struct {
-	Stage string // "vertex" | "fragment" | "compute"
-	Name  string
+	Stage         string // "vertex" | "fragment" | "compute"
+	Name          string
+	WorkgroupSize [3]int   // compute only
+	Inputs        []FullIO // in declaration order (struct members flattened)
+	Outputs       []FullIO
+}
+
+// FullIO is one entry-point input or output.
+type FullIO struct {
+	Name      string // parameter / member name ("" for a bare return value)
+	Type      string // WGSL type
+	Location  int    // -1 when bound to a builtin
+	Builtin   string // "" when bound to a location
+	Interp    string // "" (default) | "perspective" | "linear" | "flat"
+	Sampling  string // "" (default) | "center" | "centroid" | "sample" | "first" | "either"
+	Invariant bool
+	Struct    string // name of the IO struct the member belongs to; "" for a bare parameter / return
+}
+
+// FullResource is one resource variable of the module.
+type FullResource struct {
+	Name    string
+	Group   int
+	Binding int
+	// Kind: uniform | storage_ro | storage_rw | sampler | sampler_comparison |
+	// texture | texture_depth | texture_multisampled | storage_texture
+	Kind string
+	Decl string // WGSL type as written (texture_2d<f32>, texture_storage_2d<r32uint, read_write>, Params, …)
+	// UsedBy lists the entry points that statically use the variable (directly
+	// or through the helper functions they call), in declaration order.
+	UsedBy []string
 }
 
 // FullCase is a generated full-profile module.
@@ -56,6 +86,9 @@ type FullCase struct {
 	UsesAtomic  bool
 	StructIO    bool
 	UsesStorage bool // declares a storage buffer or storage texture (GLSL >= 4.30 / ES 3.10)
+	Resources   []FullResource
+	// Workgroup lists, per entry-point name, whether it statically uses workgroup variables.
+	UsesWorkgroup map[string]bool
 }
 
 type fres struct {
@@ -108,6 +141,8 @@ type fgen struct {
 	localOnly    bool // leaves must not name module-scope declarations (guard for tag forward-reference.bitcast)
 	c            *FullCase
 	vouts        []fio
+	structItems  map[string][]string // IO struct name -> member items ("@attr… name: type")
+	fnText       map[string]string   // function name -> text of its declaration
 }
 
 type fhelper struct {
@@ -1580,6 +1615,7 @@ func (g *fgen) helper() {
 		sig += " -> " + h.ret
 	}
 	g.decls = append(g.decls, sig+" {\n"+w.b.String()+"}")
+	g.fnText[h.name] = sig + " {\n" + w.b.String() + "}"
 	g.helpers = append(g.helpers, h)
 	g.c.Helpers++
 }
@@ -1644,7 +1680,7 @@ func (g *fgen) entry(stage string, idx int) {
 	structIn := g.chance(50, "sin")
 	switch stage {
 	case "vertex":
-		items, names, types := g.ioMembers("a", g.intn(4, "vin"), false, 0)
+		items, names, types := g.ioMembers("a", g.intn(4, "vin"), false, g.intn(10, "vloc"))
 		if g.chance(50, "vi") {
 			items, names, types = append(items, "@builtin(vertex_index) vidx: u32"), append(names, "vidx"), append(types, "u32")
 		}
@@ -1661,11 +1697,12 @@ func (g *fgen) entry(stage string, idx int) {
 				pos = "@builtin(position) @invariant pos: vec4<f32>"
 				g.class("io:invariant")
 			}
-			its, nms, tys := g.ioMembers("o", g.intn(4, "von"), true, 0)
+			its, nms, tys := g.ioMembers("o", g.intn(4, "von"), true, g.intn(10, "oloc"))
 			its = append(its, pos)
 			nms, tys = append(nms, "pos"), append(tys, "vec4<f32>")
 			g.shuffle(its, nms, tys)
 			g.decls = append(g.decls, "struct "+sn+" {\n  "+strings.Join(its, ",\n  ")+",\n}")
+			g.structItems[sn] = its
 			g.vouts = append(g.vouts, fio{sn, nms, tys})
 			retDecl = " -> " + sn
 			retExpr = "out"
@@ -1697,7 +1734,7 @@ func (g *fgen) entry(stage string, idx int) {
 			g.c.StructIO = true
 			g.class("io:fragment-input-is-vertex-output")
 		} else {
-			items, names, types = g.ioMembers("b", g.intn(4, "fin"), true, 0)
+			items, names, types = g.ioMembers("b", g.intn(4, "fin"), true, g.intn(10, "floc"))
 			if g.chance(40, "fpos") {
 				items, names, types = append(items, "@builtin(position) fpos: vec4<f32>"), append(names, "fpos"), append(types, "vec4<f32>")
 			}
@@ -1732,7 +1769,7 @@ func (g *fgen) entry(stage string, idx int) {
 			nms, tys := []string{"c0"}, []string{"vec4<f32>"}
 			if g.chance(40, "fo1") {
 				ty := g.pick("fo1t", "vec4<u32>", "vec4<i32>", "vec2<f32>", "f32", "u32")
-				its, nms, tys = append(its, "@location(1) c1: "+ty), append(nms, "c1"), append(tys, ty)
+				its, nms, tys = append(its, fmt.Sprintf("@location(%d) c1: %s", 1+g.intn(7, "c1loc"), ty)), append(nms, "c1"), append(tys, ty)
 			}
 			if g.chance(40, "fod") && !g.is("builtin.frag_depth") {
 				its, nms, tys = append(its, "@builtin(frag_depth) depth: f32"), append(nms, "depth"), append(tys, "f32")
@@ -1744,6 +1781,7 @@ func (g *fgen) entry(stage string, idx int) {
 			}
 			g.shuffle(its, nms, tys)
 			g.decls = append(g.decls, "struct "+sn+" {\n  "+strings.Join(its, ",\n  ")+",\n}")
+			g.structItems[sn] = its
 			retDecl = " -> " + sn
 			g.body(w, stage)
 			var args []string
@@ -1772,25 +1810,55 @@ func (g *fgen) entry(stage string, idx int) {
 	}
 	g.pop()
 	attr := "@" + stage
+	wgs := [3]int{}
 	if stage == "compute" {
+		wgs = [3]int{1, 1, 1}
 		switch g.intn(4, "wgs") {
 		case 0:
-			attr += fmt.Sprintf(" @workgroup_size(%d)", 1+g.intn(8, "wx"))
+			wgs[0] = 1 + g.intn(8, "wx")
+			attr += fmt.Sprintf(" @workgroup_size(%d)", wgs[0])
 		case 1:
-			attr += fmt.Sprintf(" @workgroup_size(%d, %d)", 1+g.intn(4, "wx"), 1+g.intn(4, "wy"))
+			wgs[0], wgs[1] = 1+g.intn(4, "wx"), 1+g.intn(4, "wy")
+			attr += fmt.Sprintf(" @workgroup_size(%d, %d)", wgs[0], wgs[1])
 		case 2:
-			attr += fmt.Sprintf(" @workgroup_size(%d, %d, %d)", 1+g.intn(4, "wx"), 1+g.intn(2, "wy"), 1+g.intn(2, "wz"))
+			wgs = [3]int{1 + g.intn(4, "wx"), 1 + g.intn(2, "wy"), 1 + g.intn(2, "wz")}
+			attr += fmt.Sprintf(" @workgroup_size(%d, %d, %d)", wgs[0], wgs[1], wgs[2])
 		default:
+			wgs[0] = 2
 			if g.is("workgroup-size.const") {
 				attr += " @workgroup_size(2)"
 			} else {
 				g.class("workgroup-size:const-name")
-				attr += " @workgroup_size(WG_X, 1u)"
+				attr += " @workgroup_size(WG_X, 1u)" // WG_X = 2u
 			}
 		}
 	}
-	g.decls = append(g.decls, fmt.Sprintf("%s\nfn %s(%s)%s {\n%s}", attr, name, strings.Join(params, ", "), retDecl, w.b.String()))
-	g.c.Entries = append(g.c.Entries, FullEntry{Stage: stage, Name: name})
+	text := fmt.Sprintf("%s\nfn %s(%s)%s {\n%s}", attr, name, strings.Join(params, ", "), retDecl, w.b.String())
+	g.decls = append(g.decls, text)
+	g.fnText[name] = text
+	fe := FullEntry{Stage: stage, Name: name, WorkgroupSize: wgs}
+	for _, p := range params {
+		if !strings.HasPrefix(p, "@") {
+			sn := strings.TrimSpace(p[strings.IndexByte(p, ':')+1:])
+			for _, it := range g.structItems[sn] {
+				fe.Inputs = append(fe.Inputs, parseFullIO(it, sn))
+			}
+			continue
+		}
+		fe.Inputs = append(fe.Inputs, parseFullIO(p, ""))
+	}
+	if rd := strings.TrimPrefix(retDecl, " -> "); rd != "" {
+		if its, ok := g.structItems[rd]; ok {
+			for _, it := range its {
+				fe.Outputs = append(fe.Outputs, parseFullIO(it, rd))
+			}
+		} else {
+			// "@attr… type": a bare return value has no name
+			i := strings.LastIndex(rd, ") ")
+			fe.Outputs = append(fe.Outputs, parseFullIO(rd[:i+2]+": "+rd[i+2:], ""))
+		}
+	}
+	g.c.Entries = append(g.c.Entries, fe)
 	g.class("entry:" + stage)
 	g.stage, g.used = "", nil
 }
@@ -1799,6 +1867,44 @@ type fio struct {
 	name  string
 	names []string
 	types []string
+}
+
+// parseFullIO reads back one IO item written by the generator:
+// "@location(3) @interpolate(linear, centroid) a5: vec2<f32>".
+func parseFullIO(item, structName string) FullIO {
+	io := FullIO{Location: -1, Struct: structName}
+	rest := item
+	for strings.HasPrefix(rest, "@") {
+		end := strings.IndexByte(rest, ' ')
+		a := rest[:end]
+		// attribute arguments may contain ", " — extend to the closing parenthesis
+		if strings.Contains(a, "(") && !strings.Contains(a, ")") {
+			end = strings.IndexByte(rest, ')') + 1
+			a = rest[:end]
+		}
+		rest = strings.TrimSpace(rest[end:])
+		name, arg := a[1:], ""
+		if i := strings.IndexByte(a, '('); i >= 0 {
+			name, arg = a[1:i], a[i+1:len(a)-1]
+		}
+		switch name {
+		case "location":
+			fmt.Sscanf(arg, "%d", &io.Location)
+		case "builtin":
+			io.Builtin = arg
+		case "invariant":
+			io.Invariant = true
+		case "interpolate":
+			parts := strings.Split(arg, ",")
+			io.Interp = strings.TrimSpace(parts[0])
+			if len(parts) > 1 {
+				io.Sampling = strings.TrimSpace(parts[1])
+			}
+		}
+	}
+	i := strings.IndexByte(rest, ':')
+	io.Name, io.Type = strings.TrimSpace(rest[:i]), strings.TrimSpace(rest[i+1:])
+	return io
 }
 
 func (g *fgen) shuffle(a, b, c []string) {
@@ -1819,6 +1925,7 @@ func (g *fgen) bindInputs(sprefix string, items, names, types []string, asStruct
 		g.c.StructIO = true
 		sn := g.name(sprefix)
 		g.decls = append(g.decls, "struct "+sn+" {\n  "+strings.Join(items, ",\n  ")+",\n}")
+		g.structItems[sn] = items
 		for i, n := range names {
 			g.addVal(types[i], "input."+n, true)
 		}
@@ -1853,7 +1960,7 @@ func (g *fgen) body(w *fw, stage string) {
 
 // GenFull draws a full-profile module.
 func GenFull(t *rapid.T, f FullFeatures) *FullCase {
-	g := &fgen{t: t, off: f.Off, classes: map[string]bool{}, c: &FullCase{}}
+	g := &fgen{t: t, off: f.Off, classes: map[string]bool{}, c: &FullCase{}, structItems: map[string][]string{}, fnText: map[string]string{}}
 	g.push() // module scope
 	g.decls = append(g.decls, "alias Vec4 = vec4<f32>;", "var<private> gpf: f32;", "var<private> gpi: i32 = 3;", "var<private> gpu: u32 = 2u;",
 		"const WG_X: u32 = 2u;", "const K_F = 0.5;")
@@ -1897,6 +2004,7 @@ func GenFull(t *rapid.T, f FullFeatures) *FullCase {
 	if !g.is("textures") && !g.is("fn.handle-param") && g.chance(40, "texh") {
 		g.hasTexHelper = true
 		g.decls = append(g.decls, "fn sample_lod(t: texture_2d<f32>, s: sampler, uv: vec2<f32>) -> Vec4 {\n  return textureSampleLevel(t, s, uv, 0.0);\n}")
+		g.fnText["sample_lod"] = "fn sample_lod(t: texture_2d<f32>, s: sampler, uv: vec2<f32>) -> Vec4 {\n  return textureSampleLevel(t, s, uv, 0.0);\n}"
 		g.c.Helpers++
 	}
 	for i, n := 0, g.intn(4, "nh"); i < n; i++ {
@@ -1924,6 +2032,7 @@ func GenFull(t *rapid.T, f FullFeatures) *FullCase {
 		}
 		g.class("forward-reference:shuffled-declarations")
 	}
+	g.resourceMetadata()
 	c := g.c
 	c.Src = strings.Join(g.decls, "\n") + "\n"
 	c.MaxNesting = g.maxNest
@@ -1946,4 +2055,90 @@ func (g *fgen) leafConst(ty string) string {
 		parts[i] = g.lit(fscalar(ty))
 	}
 	return ty + "(" + strings.Join(parts, ", ") + ")"
+}
+
+// mentions reports whether text names identifier id (as a whole token).
+func mentions(text, id string) bool {
+	for i := 0; i+len(id) <= len(text); i++ {
+		if text[i:i+len(id)] == id && (i == 0 || !identByte(text[i-1])) && (i+len(id) == len(text) || !identByte(text[i+len(id)])) {
+			return true
+		}
+	}
+	return false
+}
+
+// resourceMetadata fills FullCase.Resources / UsesWorkgroup from the text the
+// generator wrote: a function uses a variable when its text names it, an entry
+// point uses what the functions it (transitively) calls use.  Resource,
+// workgroup-variable and function names are never shadowed by locals.
+func (g *fgen) resourceMetadata() {
+	names := g.sortedFnNames()
+	reach := func(entry string) []string {
+		seen := map[string]bool{entry: true}
+		order := []string{entry}
+		for i := 0; i < len(order); i++ {
+			for _, h := range names {
+				if !seen[h] && mentions(g.fnText[order[i]], h) {
+					seen[h] = true
+					order = append(order, h)
+				}
+			}
+		}
+		return order
+	}
+	g.c.UsesWorkgroup = map[string]bool{}
+	used := map[string]map[string]bool{} // entry -> variable names
+	for _, e := range g.c.Entries {
+		used[e.Name] = map[string]bool{}
+		for _, fn := range reach(e.Name) {
+			for _, r := range g.res {
+				if mentions(g.fnText[fn], r.name) {
+					used[e.Name][r.name] = true
+				}
+			}
+			for _, wv := range []string{"wg_counter", "wg_signed", "wg_arr", "wg_data", "wg_flag"} {
+				if mentions(g.fnText[fn], wv) {
+					g.c.UsesWorkgroup[e.Name] = true
+				}
+			}
+		}
+	}
+	for _, r := range g.res {
+		fr := FullResource{Name: r.name, Group: r.group, Binding: r.binding, Decl: r.decl}
+		switch r.kind {
+		case "uniform":
+			fr.Kind = "uniform"
+		case "storage-r":
+			fr.Kind = "storage_ro"
+		case "storage-rw", "atomic":
+			fr.Kind = "storage_rw"
+		case "samp":
+			fr.Kind = "sampler"
+		case "samp-cmp":
+			fr.Kind = "sampler_comparison"
+		case "tex":
+			fr.Kind = "texture"
+		case "depth":
+			fr.Kind = "texture_depth"
+		case "ms":
+			fr.Kind = "texture_multisampled"
+		default:
+			fr.Kind = "storage_texture"
+		}
+		for _, e := range g.c.Entries {
+			if used[e.Name][r.name] {
+				fr.UsedBy = append(fr.UsedBy, e.Name)
+			}
+		}
+		g.c.Resources = append(g.c.Resources, fr)
+	}
+}
+
+func (g *fgen) sortedFnNames() []string {
+	var out []string
+	for n := range g.fnText {
+		out = append(out, n)
+	}
+	sort.Strings(out)
+	return out
 }
